@@ -34,6 +34,16 @@ def rule_open(ctx):
                 if ch[0] == h:
                     writers.setdefault(b.path.split('::')[-1], []).append((canon(val), util.guards_at(b, bb), b, bb))
     ctx.check('open', 'handle-writers', set(writers) == {'open', 'close'}, None, 'self.%s is written in %s' % (h, sorted(writers)))
+    # "a file needed again later is transparently reopened": what open() builds the reader from (path, key) is never
+    # modified after construction, so the second reader equals the first
+    other = []
+    for b in prog.bodies.values():
+        if b.impl_self == blk:
+            for bb, ch, val, st in util.self_field_stores(b):
+                if ch[0] != h:
+                    other.append((b.path.split('::')[-1], ch[0], canon(val)[:40]))
+    ctx.check('open', 'reopen-state-immutable', not other, None, 'no BlkFile method writes a field other than the handle',
+              bad_detail='BlkFile fields other than the handle are modified after construction: %s — a reopened reader differs from the first one' % other)
     for fn, ws in writers.items():
         for val, g, b, bb in ws:
             ctx.touch(b)
@@ -161,6 +171,6 @@ def run(ctx):
     ctx.trusted += ['OS descriptor accounting: dropping the reader closes the descriptor', 'C02.asc (ascending delivery)']
     for r, f in (('open', rule_open), ('close', rule_close), ('threshold', rule_threshold)):
         ctx.guard(r, f)
-    ctx.floor('open', 8)
+    ctx.floor('open', 9)
     ctx.floor('close', 5)
     ctx.floor('threshold', 10)
